@@ -235,20 +235,23 @@ CLAIMS = {
              "analysis, blind to the standard library) is trusted.",
         technique="Lean 4 non-interference theorems over an interleaving model + decide on regenerated write/capture facts + race-detector workload"),
     "C16": dict(
-        text="PARTIAL (value theorem modulo completeness; encoding/json is an external oracle). Machine-checked (Lean 4) for the closed "
-             "term Gjson - the transcription of examples/json/json/parser.go (the REAL json.NewParser() runs on the Go side; a driver "
-             "command compares the harness's transcription with Gjson on every run): every derivation is sentence[JSON tree, EOF], "
-             "arrays/objects being Select(1) over a SEP_BY node whose even children are values / key-value nodes with string-literal "
-             "keys and whose odd children are commas, never a trailing comma (c16_tree_shape); evaluation of a JSON tree never errors "
-             "and never panics - Object's type assertions always hold - and yields denote(jvalOf tree): arrays in order, objects as "
-             "maps where the LAST duplicate key wins, numbers as their lexemes, strings as decoded bytes (c16_eval_total, c16_value, "
-             "c16_denote_obj, c16_no_panic); whenever Evaluate answers a value it is the denotation of the parsed tree, which spans "
-             "the whole input; otherwise an error (c16_value_partial, c16_reject_partial, c16_evaluate). NOT proved: that denote "
-             "agrees with encoding/json (external library: checked on every generated document by the differential run with "
-             "UseNumber), that the tree found is the one of the rendered document, and the byte-level description of the rejected "
-             "corruptions (statements kept).",
-        note="c16_json_tree_not_evalSafe: key/value nodes carry no interpreter (Object reads their children directly), so no-panic is proved directly, not via C04's EvalSafe.",
-        technique="Lean 4 theorems on a closed grammar term (derivation inversion, evaluation = denotation) + grammar-identity stream + differential run against encoding/json"),
+        text="Machine-checked proof (Lean 4) of the FULL value theorem on the model: for the closed term Gjson - the transcription of "
+             "examples/json/json/parser.go (the REAL json.NewParser() runs on the Go side; a driver command compares the harness's "
+             "transcription with Gjson on every run) - and EVERY document of the supported subset (abstract values JV: null, "
+             "booleans, int64 integers in canonical decimal, decimals with fraction and optional exponent, strings of plain bytes / "
+             "the standard escapes / \\uXXXX / raw UTF-8, arrays, objects with any keys incl. duplicates and empty) rendered with "
+             "ANY admissible whitespace layout (spaces, tabs, LF before values/keys/closers; spaces, tabs before ',' and ':'), at any "
+             "base offset >= 1, there is a fuel beyond which Parse returns exactly sentence[tree of the document] and Evaluate "
+             "returns denote(v): arrays in order, objects as maps where the LAST duplicate key wins (c16_parse_full, c16_value_full, "
+             "c16_find_value from every context and state; proved by forward symbolic execution of the parser core, so termination "
+             "on these inputs is part of the statement). Also: every derivation is sentence[JSON tree, EOF], evaluation of a JSON tree "
+             "never errors and never panics, and whenever Evaluate answers a value it is the denotation of the parsed tree, otherwise "
+             "an error (c16_tree_shape, c16_eval_total, c16_value_partial, c16_reject_partial, c16_no_panic). OUTSIDE Lean: that "
+             "denote agrees with encoding/json (external library) - checked on every generated document by the differential run with "
+             "UseNumber; the byte-level description of the rejected corruptions is decided per case by the oracle.",
+        note="strconv.ParseFloat's acceptance of the decimal lexemes is a hypothesis (a model parameter). -0 is not in the subset. "
+             "c16_json_tree_not_evalSafe: key/value nodes carry no interpreter, so no-panic is proved directly, not via C04's EvalSafe.",
+        technique="Lean 4 theorems on a closed grammar term (forward symbolic execution of the parser model by induction on the document, derivation inversion, evaluation = denotation) + grammar-identity stream + differential run against encoding/json"),
     "C15": dict(
         text="Machine-checked proof (Lean 4) that the slice-heap/map-heap model of IntSet/IntMap refines the plain set/map "
              "specification for every history and every append growth policy (c15_refine, c15_sorted, c15_grow_irrelevant), tied to "
